@@ -38,7 +38,7 @@ def t_sem(ctx):
     raising = ctx.cfg.get('raising', True)
     semT = _sem_timeout(st_cfg, L)
     hi = Exact('3/2')
-    starts = [Exact(0)] + [ctx.real(f's{i}', 0, 2) for i in range(1, n)]
+    starts = [Exact(0)] + [(Exact(ctx.cfg['pin_s1']) if (i == 1 and 'pin_s1' in ctx.cfg) else ctx.real(f's{i}', 0, 2)) for i in range(1, n)]
     nd = ctx.cfg.get('nd', 2)
     durs = [ctx.real(f'd{i}', 0, hi) if i < nd else Exact('1/4') for i in range(n)]
     outs = [ctx.enum(f'o{i}', ('return', 'raise')) if raising and i < 2 else 'return' for i in range(n)]
@@ -294,6 +294,7 @@ def jobs(tier):
         out.append(Job('C20', 'r.sem', t_sem, dict(L=1, n=3, scope='class', sem_timeout='1/2', raising=False, nd=1), witnesses=W))
         out.append(Job('C20', 'r.sem', t_sem, dict(L=1, n=3, scope='self', sem_timeout='1/2', raising=False, nd=1), witnesses=W))
         out.append(Job('C20', 'r.sem', t_sem, dict(L=2, n=3, scope='global', sem_timeout='1/2', raising=False, nd=1), witnesses=W))
+        out.append(Job('C20', 'r.sem', t_sem, dict(L=2, n=4, scope='global', sem_timeout='2', raising=False, nd=1, pin_s1='0'), witnesses=W))
     else:
         for L in (1, 2):
             for st in (None, 0, '1/2'):
